@@ -1,5 +1,5 @@
 """PhysicalFS: each operation is exactly its Table-O std call on the translated path (R01.4, R02.1, R11.7, R19.3)."""
-from .terms import get_tracer, short, strip, fmt, walk
+from .terms import get_tracer, short, strip, fmt, walk, fmt_guard
 from .inter import Inter
 from .panics import norm
 
@@ -206,6 +206,28 @@ def table_o_shape(facts, rep, rule, w):
         rep.ob(rule, b.id, "read_dir: names are converted losslessly", not lossy, "" if not lossy else
                "a lossy conversion (to_string_lossy) is applied to entry names: a non-UTF-8 name is listed with U+FFFD and "
                "the listed path does not exist", lossy[0] if lossy else b.span)
+    # ... and every entry the OS yields is handed out: the loop keeps each name unconditionally, nothing filters the listing
+    # (a hidden dot-file still exists, is found by exists()/metadata() and keeps its directory from being removed)
+    if b is not None:
+        shaping, cond = [], []
+        pushes = 0
+        for cb in inter.code_bodies(b):
+            trp = get_tracer(facts, cb)
+            for s_ in inter.sites(cb):
+                ad = s_.short.split("::")[-1]
+                if s_.short.split("::")[0] in ("Iterator", "StreamExt", "Stream", "Itertools") and ad in (
+                        "filter", "filter_map", "skip", "skip_while", "take", "take_while", "step_by", "map_while", "scan", "nth", "last"):
+                    shaping.append(s_.short)
+                if s_.short in ("Vec::push", "VecDeque::push_back", "Vec::insert"):
+                    pushes += 1
+                    for g in trp.guards_at(s_.bb):
+                        if g[0] in ("bool", "inteq", "intne"):
+                            cond.append(fmt_guard(g)[:60])
+        okl = not shaping and not cond
+        n += 1
+        rep.ob(rule, b.id, "read_dir: every entry of the directory is listed (no filter, no condition)", okl, "" if okl else
+               "the listing %s: an entry the OS reports is not handed out although it exists" %
+               ("passes through " + ", ".join(sorted(set(shaping))) if shaping else "keeps a name only if " + "; ".join(cond)), b.span)
     # the setters hand the caller's SystemTime to filetime through its own conversion (FileTime::from): no hand-made
     # seconds / nanoseconds arithmetic (which is where pre-epoch and sub-second values go wrong)
     for op in ("set_modification_time", "set_access_time"):
